@@ -122,4 +122,13 @@ CHECKS = {
             {"name": "cli", "run": "TestCLI", "kind": "rapid", "shards": {"quick": 16, "thorough": 16}, "checks": {"quick": 3, "thorough": 40}, "timeout": {"quick": 600, "thorough": 3600}, "shrinktime": "20s"},
         ],
     },
+    "C18": {
+        "pkg": "c18", "level": "exploration", "exhaustive_claim": True, "needs": ["sysstop", "tool:recorder"],
+        "rule": "stage model (rapid, stateful): operation sequences create / save(text) / rename(old,new) / delete / record-a-run over 7 similar and prefix-related names (a, ab, a_c, 'a b', b, a-b, a_c_c) and 8 candidate texts (two valid, invalid YAML, valid YAML rejected by the builder, empty, 1 MiB valid, invalid schedule, valid with schedule+tags) through client.Client over the real DAG store and the real history store; after EVERY operation the bytes of every definition file, the full history of every name and the listing are compared with a reference model (name -> text, name -> runs): create/rename never overwrite an existing name, save replaces iff the validator accepts the text, accepted rename moves definition and every run, delete removes that definition and its runs only. stage crash (fault enumeration): one UpdateSpec(old -> new) executed by tools/recorder under the sysstop ptrace supervisor is SIGKILLed at the entry of EVERY file-system call of the save (and with torn prefixes of a write to the definition file itself) for all ordered pairs of valid texts; afterwards the file holds exactly old or exactly new and no stray definition file exists. Non-trivial (model): a refused create / save / rename on a populated store, or a rename/delete of a DAG with history; (crash): every kill point. Distinct: hash of the op list; kill points by construction.",
+        "assumptions": ["names without a dot (anything after a dot is taken for a file extension by the store) and without '/' (the store rewrites .yml and treats names with a slash as raw paths for backward compatibility)", "process-crash model: data handed to write(2) is durable; power loss / fsync ordering is out of scope", "validity of a text = what dag.LoadYAML (the validator the store itself uses) accepts"],
+        "stages": [
+            {"name": "crash", "run": "TestCrash", "kind": "plain", "shards": 16, "timeout": {"quick": 900, "thorough": 1800}},
+            sim_stage(150, 3000, shrinktime="30s"),
+        ],
+    },
 }
